@@ -14,6 +14,7 @@ Op lines (see `harness/src/scen_cw4group.rs`):
     query list_members after=<+a|-text|-> limit=<n|->   query admin   query hooks
 -/
 -- SCENARIO cw4group Cw4Group.scen
+-- SCENARIO cw4groupwide Cw4Group.scen
 namespace CwPlus.Driver.Cw4Group
 open CwPlus Wire Driver CwPlus.Cw4Group CwPlus.Snapshot
 
@@ -25,6 +26,8 @@ structure MState where
   h0 : Nat := 0
   /-- heights at which an `inst`/`exec` op succeeded since instantiation (ascending, no repeats) -/
   heights : List Nat := []
+  /-- header `wide=1` (`cw4groupwide`): the at-height probes use only the 3 most recent recorded heights -/
+  wide : Bool := false
 
 def addrArg (s : String) : AddrArg := let p := parseAddr s; ⟨p.1, p.2⟩
 
@@ -67,7 +70,7 @@ def obsOf (m : MState) : Args :=
   match m.st with
   | none => [("uninit", "1")]
   | some s =>
-    let hs := probeHeights m.h0 m.height m.heights
+    let hs := probeHeights m.h0 m.height (if m.wide then m.heights.drop (m.heights.length - 3) else m.heights)
     let mh := m.pool.flatMap fun a => hs.map fun h => s!"{a}@{h}:{optNatStr (s.members.atHeight a h)}"
     let th := hs.map fun h => s!"{h}:{queryTotalWeight s (some h)}"
     [("admin", optStrStr (queryAdmin s)),
@@ -278,7 +281,7 @@ def monitorOp (mu : Mon) (prev : Args) (toks : List String) (implOk : Bool) (out
     (mu, f9 ++ f14)
 
 def scen : Scen MState Mon where
-  init h := { pool := h.list "pool" }
+  init h := { pool := h.list "pool", wide := h.str "wide" == "1" }
   step := stepOp
   obs := obsOf
   monInit _ := {}
